@@ -120,7 +120,7 @@ mod verif {
     fn any_duration() -> Duration {
         let s: u64 = kani::any();
         let n: u32 = kani::any();
-        kani::assume(s < (1 << 40) && n < 1_000_000_000);
+        kani::assume(s < (1 << 23) && n < 1_000_000_000);
         Duration::new(s, n)
     }
     const E: Entity = Entity(7);
